@@ -81,7 +81,7 @@ def fmt_int(k: int) -> str:
 
 # --------------------------------------------------------------------------- state
 class St:
-    __slots__ = ("fields", "locs", "dfrs", "ghost", "active", "alias", "log", "exit", "pre", "frames", "nid", "lendelta", "epoch")
+    __slots__ = ("fields", "locs", "dfrs", "ghost", "active", "alias", "log", "exit", "pre", "frames", "nid", "lendelta", "epoch", "tainted")
 
     def __init__(self):
         self.fields: Dict[str, tuple] = {}
@@ -97,6 +97,7 @@ class St:
         self.nid = 0
         self.lendelta: Dict[str, Optional[int]] = {}
         self.epoch = 0
+        self.tainted = False   # descends from the havoc assumed at an unmodelled call: findings are not positive
 
     def copy(self) -> "St":
         s = St()
@@ -113,6 +114,7 @@ class St:
         s.nid = self.nid
         s.lendelta = dict(self.lendelta)
         s.epoch = self.epoch
+        s.tainted = self.tainted
         return s
 
     def key(self):
@@ -140,6 +142,17 @@ class St:
 
     def events(self, kind):
         return [e for e in self.log if e[0] == kind]
+
+    def basis(self, fields: dict) -> dict:
+        """The abstract field values the method's own logic started from: the entry state, or - when an opaque
+        call-out (say a logging call) preceded every decision / container operation / firing - the state it left."""
+        cur = fields
+        for e in self.log:
+            if e[0] == "basis":
+                cur = e[2]
+            elif e[0] in ("decide", "listop", "fire", "write"):
+                break
+        return cur
 
 
 def describe_state(fields, ghost) -> str:
@@ -257,6 +270,7 @@ class _LenShift(ast.NodeTransformer):
         return node
 
 
+_PURE_ROOTS = {"log", "_log", "logger", "_logger", "logging", "warnings", "self._log", "self.log", "self._logger"}
 _PURE_FUNCS = {"isinstance", "bool", "int", "str", "repr", "id", "hasattr", "type", "abs", "min", "max", "float", "callable", "getattr"}
 _CATCH_ALL = {"Exception", "BaseException", None}
 _EXC_PARENTS = {"IndexError": {"LookupError"}, "KeyError": {"LookupError"}, "AlreadyCalledError": set(), "ValueError": set(),
@@ -275,6 +289,7 @@ class Interp:
         self.problems: List[Problem] = []
         self.checked: Dict[Tuple[str, str, object], ast.AST] = {}
         self.notes: List[str] = []
+        self.uncertain: List[str] = []
         self._qual: List[str] = []
         self._stmt: List[ast.AST] = []
         self._depth = 0
@@ -290,6 +305,10 @@ class Interp:
 
     def problem(self, rule, st: St, msg, node=None):
         n = self.site(node)
+        if st.tainted:
+            # only reachable under the havoc assumed at an unmodelled call: not a positive finding
+            self.uncertain.append(f"{self.qual}: after an unmodelled call, {rule} cannot be decided at `{src(n)[:60]}`")
+            return
         self.problems.append(Problem(rule, self.qual, n, msg, st.pre))
 
     def mark(self, rule, node=None):
@@ -1048,6 +1067,7 @@ class Interp:
                 raise Unsupported(f"{self.qual}: unmodelled call `{src(e)[:60]}` ({what}) while the object is inconsistent ({bad})")
             self.notes.append(f"{self.qual}: `{src(e)[:60]}` treated as an opaque call-out")
             for s in self.callout(r, e, check=False):
+                s.tainted = True
                 out.append((("top",), s))
         return out
 
@@ -1090,7 +1110,7 @@ class Interp:
             return [(("newlist",), st)]
         if fn == "cast" and len(e.args) == 2:
             return self.eval(e.args[1], st)
-        if fn in _PURE_FUNCS:
+        if fn in _PURE_FUNCS or (fn and (fn.rsplit(".", 1)[0] in _PURE_ROOTS or fn.split(".")[0] in ("log", "_log", "logging", "warnings"))):
             return [((("top",) if vals is not None else None), r) for vals, r in self.eval_args(e.args, st)]
         if isinstance(e.func, ast.Name) and self.is_exception_class(e.func.id):
             return [(("exc", e.func.id), st)]
@@ -1326,6 +1346,7 @@ class Interp:
                 if rec["where"] is not None:
                     rec["stale"] = True
                 rec["pristine"] = False
+            s.add("basis", None, dict(s.fields))
             outs.append(s)
         return outs
 
@@ -1344,6 +1365,8 @@ def report_interp(ctx, interp):
     """Turn the interpreter's marks/problems into obligations (one per rule x site)."""
     for n in sorted(set(interp.notes)):
         ctx.note(n)
+    for n in sorted(set(interp.uncertain)):
+        ctx.errors.append(n)
     bad = {}
     for p in interp.problems:
         key = (p.rule, p.qual, src(p.node) if p.node is not None else "")
@@ -1367,13 +1390,15 @@ def exit_check(ctx, interp, spec, qual, finals, what="invariant/exit"):
         if f.exit[0] != "return":
             continue
         r = spec.invariant(f)
+        if r and f.tainted:
+            interp.uncertain.append(f"{qual}: after an unmodelled call, {what} cannot be decided")
+            continue
         if r and bad is None:
             bad = (r, f)
     node = bad[1].exit[2] if bad and bad[1].exit[2] is not None else None
     ctx.check(bad is None, what, ctx.construct(qual, node) if node is not None else qual + " | <normal exit>",
               bad[0] if bad else "", detail=f"{len(finals)} abstract paths",
               witness=f"abstract pre-state: {bad[1].pre}" if bad else "")
-
 
 
 FILL_BACK, FILL_FRONT = {"append"}, {"appendleft", "insert0"}
@@ -2091,57 +2116,60 @@ def check_delayed_call(ctx, mod, heap_rules=True):
     ms = methods(cls)
     Elem = model_class(cls, "DelayedCallModel")
     grid = [0, 1, 2.5]
-    # ---- key = time; getTime = time + delayed_time (finite evaluation of the three pure methods)
-    for name, py in ((("__lt__", lambda a, b: a < b), ("__le__", lambda a, b: a <= b)) if heap_rules else ()):
-        ctx.need(name in ms, f"DelayedCall.{name}")
-        ctx.functions.add(f"{BASE}:DelayedCall.{name}")
+    with ctx.section("DelayedCall ordering"):
+        # ---- key = time; getTime = time + delayed_time (finite evaluation of the three pure methods)
+        for name, py in ((("__lt__", lambda a, b: a < b), ("__le__", lambda a, b: a <= b)) if heap_rules else ()):
+            ctx.need(name in ms, f"DelayedCall.{name}")
+            ctx.functions.add(f"{BASE}:DelayedCall.{name}")
+            bad = None
+            try:
+                for a, b, da, db in itertools.product(grid, grid, [0, 4, -4], [0, 4]):
+                    MiniEval.budget = 0
+                    x, y = Elem(time=a, delayed_time=da), Elem(time=b, delayed_time=db)
+                    got = MiniEval.call(ms[name], (x, y), {})
+                    if bool(got) != py(a, b):
+                        bad = f"{name}(time={a}, delayed_time={da}; time={b}, delayed_time={db}) = {got!r}"
+                        break
+            except (MiniRaise, MiniBudget, AttributeError, TypeError) as e:
+                bad = f"{name} does not evaluate on the model ({type(e).__name__}: {e})"
+            ctx.check(bad is None, "key/compares-time", f"{DC}.{name}",
+                      f"heap order is not the order of `time` (the key the reactor maintains): {bad}")
+    with ctx.section("DelayedCall.getTime"):
+        ctx.need("getTime" in ms, "DelayedCall.getTime")
         bad = None
         try:
-            for a, b, da, db in itertools.product(grid, grid, [0, 4, -4], [0, 4]):
+            for t, d in itertools.product(grid, [0, 1.5, -1]):
                 MiniEval.budget = 0
-                x, y = Elem(time=a, delayed_time=da), Elem(time=b, delayed_time=db)
-                got = MiniEval.call(ms[name], (x, y), {})
-                if bool(got) != py(a, b):
-                    bad = f"{name}(time={a}, delayed_time={da}; time={b}, delayed_time={db}) = {got!r}"
+                got = MiniEval.call(ms["getTime"], (Elem(time=t, delayed_time=d),), {})
+                if got != t + d:
+                    bad = f"getTime() with time={t}, delayed_time={d} returns {got!r}"
                     break
         except (MiniRaise, MiniBudget, AttributeError, TypeError) as e:
-            bad = f"{name} does not evaluate on the model ({type(e).__name__}: {e})"
-        ctx.check(bad is None, "key/compares-time", f"{DC}.{name}",
-                  f"heap order is not the order of `time` (the key the reactor maintains): {bad}")
-    ctx.need("getTime" in ms, "DelayedCall.getTime")
-    bad = None
-    try:
-        for t, d in itertools.product(grid, [0, 1.5, -1]):
-            MiniEval.budget = 0
-            got = MiniEval.call(ms["getTime"], (Elem(time=t, delayed_time=d),), {})
-            if got != t + d:
-                bad = f"getTime() with time={t}, delayed_time={d} returns {got!r}"
-                break
-    except (MiniRaise, MiniBudget, AttributeError, TypeError) as e:
-        bad = f"getTime does not evaluate ({e})"
-    ctx.check(bad is None, "key/effective-time", f"{DC}.getTime", f"the scheduled time is not time + delayed_time: {bad}")
+            bad = f"getTime does not evaluate ({e})"
+        ctx.check(bad is None, "key/effective-time", f"{DC}.getTime", f"the scheduled time is not time + delayed_time: {bad}")
 
-    # ---- __init__ wiring
-    init = ctx.func(BASE, "DelayedCall.__init__")
-    wiring = {}
-    for st in ast.walk(init):
-        if isinstance(st, ast.Assign):
-            for t in st.targets:
-                if isinstance(t, (ast.Tuple, ast.List)) and isinstance(st.value, (ast.Tuple, ast.List)) and len(t.elts) == len(st.value.elts):
-                    for tt, v in zip(t.elts, st.value.elts):
-                        if isinstance(tt, ast.Attribute) and _sattr(tt, tt.attr):
-                            wiring[tt.attr] = src(v)
-                elif isinstance(t, ast.Attribute) and _sattr(t, t.attr):
-                    wiring[t.attr] = src(st.value)
-    params = [a.arg for a in init.args.args][1:]
-    ctx.need(len(params) >= 7, "DelayedCall.__init__(self, time, func, args, kw, cancel, reset, seconds)")
-    p_time, p_func, p_args, p_kw, p_cancel, p_reset, p_seconds = params[:7]
-    expect = {"time": p_time, "func": p_func, "args": p_args, "kw": p_kw, "resetter": p_reset, "canceller": p_cancel,
-              "seconds": p_seconds, "cancelled": "0", "called": "0", "delayed_time": "0.0"}
-    for attr, want in expect.items():
-        got = wiring.get(attr)
-        ok = got == want or (want in ("0", "0.0") and got in ("0", "0.0", "False"))
-        ctx.check(ok, "init/wiring", f"{DC}.__init__ | self.{attr}", f"self.{attr} is initialised from `{got}` instead of `{want}`")
+    with ctx.section("DelayedCall.__init__"):
+        # ---- __init__ wiring
+        init = ctx.func(BASE, "DelayedCall.__init__")
+        wiring = {}
+        for st in ast.walk(init):
+            if isinstance(st, ast.Assign):
+                for t in st.targets:
+                    if isinstance(t, (ast.Tuple, ast.List)) and isinstance(st.value, (ast.Tuple, ast.List)) and len(t.elts) == len(st.value.elts):
+                        for tt, v in zip(t.elts, st.value.elts):
+                            if isinstance(tt, ast.Attribute) and _sattr(tt, tt.attr):
+                                wiring[tt.attr] = src(v)
+                    elif isinstance(t, ast.Attribute) and _sattr(t, t.attr):
+                        wiring[t.attr] = src(st.value)
+        params = [a.arg for a in init.args.args][1:]
+        ctx.need(len(params) >= 7, "DelayedCall.__init__(self, time, func, args, kw, cancel, reset, seconds)")
+        p_time, p_func, p_args, p_kw, p_cancel, p_reset, p_seconds = params[:7]
+        expect = {"time": p_time, "func": p_func, "args": p_args, "kw": p_kw, "resetter": p_reset, "canceller": p_cancel,
+                  "seconds": p_seconds, "cancelled": "0", "called": "0", "delayed_time": "0.0"}
+        for attr, want in expect.items():
+            got = wiring.get(attr)
+            ok = got == want or (want in ("0", "0.0") and got in ("0", "0.0", "False"))
+            ctx.check(ok, "init/wiring", f"{DC}.__init__ | self.{attr}", f"self.{attr} is initialised from `{got}` instead of `{want}`")
 
     # ---- reset / delay / activate_delay: symbolic linear paths
     TR = ["time", "delayed_time"]
@@ -2185,76 +2213,80 @@ def check_delayed_call(ctx, mod, heap_rules=True):
                   f"{name}() can leave delayed_time = {lin_text(D)} negative with the key unchanged: the call is due before its "
                   "heap key, so it runs late and timeout() may exceed the time to it")
 
-    f, paths = paths_of("reset")
-    q = f"{DC}.reset"
-    prm = [a.arg for a in f.args.args][1:]
-    ctx.need(prm, "DelayedCall.reset(self, secondsFromNow)")
-    target = ({"self.seconds()": 1, prm[0]: 1}, 0)
-    n = 0
-    for p in paths:
-        if p.exit[0] == "raise":
-            ctx.check(not [e for e in p.events if e[0] == "write"], "reset/raise-is-clean", ctx.construct(q, p.exit[2]),
-                      "reset() modifies the call and then raises")
-            continue
-        n += 1
-        T, D = p.fields["time"], p.fields["delayed_time"]
-        where = ctx.construct(q, SymExec.label(p))
-        ctx.check(T is not None and D is not None and lin_eq(lin_sub(T, ({}, 0)), lin_sub(target, D)) if D is not None and T is not None else False,
-                  "reset/effective-time", where,
-                  f"after reset(s) the scheduled time is {lin_text(None if T is None or D is None else lin_sub(T, ({k: -v for k, v in D[0].items()}, -D[1])))} "
-                  f"instead of seconds() + {prm[0]}")
-        key_rules("reset", p, q)
-    ctx.floor("reset/paths", n, 2, "normal paths")
+    with ctx.section("DelayedCall.reset"):
+        f, paths = paths_of("reset")
+        q = f"{DC}.reset"
+        prm = [a.arg for a in f.args.args][1:]
+        ctx.need(prm, "DelayedCall.reset(self, secondsFromNow)")
+        target = ({"self.seconds()": 1, prm[0]: 1}, 0)
+        n = 0
+        for p in paths:
+            if p.exit[0] == "raise":
+                ctx.check(not [e for e in p.events if e[0] == "write"], "reset/raise-is-clean", ctx.construct(q, p.exit[2]),
+                          "reset() modifies the call and then raises")
+                continue
+            n += 1
+            T, D = p.fields["time"], p.fields["delayed_time"]
+            where = ctx.construct(q, SymExec.label(p))
+            ctx.check(T is not None and D is not None and lin_eq(lin_sub(T, ({}, 0)), lin_sub(target, D)) if D is not None and T is not None else False,
+                      "reset/effective-time", where,
+                      f"after reset(s) the scheduled time is {lin_text(None if T is None or D is None else lin_sub(T, ({k: -v for k, v in D[0].items()}, -D[1])))} "
+                      f"instead of seconds() + {prm[0]}")
+            key_rules("reset", p, q)
+        ctx.floor("reset/paths", n, 2, "normal paths")
 
-    f, paths = paths_of("delay")
-    q = f"{DC}.delay"
-    prm = [a.arg for a in f.args.args][1:]
-    ctx.need(prm, "DelayedCall.delay(self, secondsLater)")
-    n = 0
-    for p in paths:
-        if p.exit[0] == "raise":
-            ctx.check(not [e for e in p.events if e[0] == "write"], "delay/raise-is-clean", ctx.construct(q, p.exit[2]),
-                      "delay() modifies the call and then raises")
-            continue
-        n += 1
-        T, D = p.fields["time"], p.fields["delayed_time"]
-        where = ctx.construct(q, SymExec.label(p))
-        want = ({"time@0": 1, "delayed_time@0": 1, prm[0]: 1}, 0)
-        got = None if T is None or D is None else lin_sub(T, ({k: -v for k, v in D[0].items()}, -D[1]))
-        ctx.check(got is not None and lin_eq(got, want), "delay/effective-time", where,
-                  f"after delay(s) the scheduled time is {lin_text(got)} instead of the previous scheduled time + {prm[0]}")
-        key_rules("delay", p, q)
-    ctx.floor("delay/paths", n, 2, "normal paths")
+    with ctx.section("DelayedCall.delay"):
+        f, paths = paths_of("delay")
+        q = f"{DC}.delay"
+        prm = [a.arg for a in f.args.args][1:]
+        ctx.need(prm, "DelayedCall.delay(self, secondsLater)")
+        n = 0
+        for p in paths:
+            if p.exit[0] == "raise":
+                ctx.check(not [e for e in p.events if e[0] == "write"], "delay/raise-is-clean", ctx.construct(q, p.exit[2]),
+                          "delay() modifies the call and then raises")
+                continue
+            n += 1
+            T, D = p.fields["time"], p.fields["delayed_time"]
+            where = ctx.construct(q, SymExec.label(p))
+            want = ({"time@0": 1, "delayed_time@0": 1, prm[0]: 1}, 0)
+            got = None if T is None or D is None else lin_sub(T, ({k: -v for k, v in D[0].items()}, -D[1]))
+            ctx.check(got is not None and lin_eq(got, want), "delay/effective-time", where,
+                      f"after delay(s) the scheduled time is {lin_text(got)} instead of the previous scheduled time + {prm[0]}")
+            key_rules("delay", p, q)
+        ctx.floor("delay/paths", n, 2, "normal paths")
 
-    f, paths = paths_of("activate_delay")
-    q = f"{DC}.activate_delay"
-    for p in paths:
-        T, D = p.fields["time"], p.fields["delayed_time"]
-        got = None if T is None or D is None else lin_sub(T, ({k: -v for k, v in D[0].items()}, -D[1]))
-        ctx.check(got is not None and lin_eq(got, ({"time@0": 1, "delayed_time@0": 1}, 0)) and lin_eq(D, ({}, 0)), "activate/folds-delay", q,
-                  f"activate_delay() leaves time={lin_text(T)}, delayed_time={lin_text(D)}: the scheduled time must be folded into "
-                  "`time` and delayed_time reset to 0")
+    with ctx.section("DelayedCall.activate_delay"):
+        f, paths = paths_of("activate_delay")
+        q = f"{DC}.activate_delay"
+        for p in paths:
+            T, D = p.fields["time"], p.fields["delayed_time"]
+            got = None if T is None or D is None else lin_sub(T, ({k: -v for k, v in D[0].items()}, -D[1]))
+            ctx.check(got is not None and lin_eq(got, ({"time@0": 1, "delayed_time@0": 1}, 0)) and lin_eq(D, ({}, 0)), "activate/folds-delay", q,
+                      f"activate_delay() leaves time={lin_text(T)}, delayed_time={lin_text(D)}: the scheduled time must be folded into "
+                      "`time` and delayed_time reset to 0")
 
-    # ---- cancel(): marks cancelled and notifies the owner exactly once
-    f = ctx.func(BASE, "DelayedCall.cancel")
-    q = f"{DC}.cancel"
-    paths = SymExec(cls, ["cancelled"], q).run(f)
-    live = [p for p in paths if p.exit[0] == "return"]
-    ctx.check(bool(live), "cancel/marks-and-notifies", q, "cancel() never returns normally")
-    for p in live:
-        where = ctx.construct(q, SymExec.label(p))
-        c = p.fields["cancelled"]
-        calls = [e for e in p.events if e[0] == "call" and e[1] == "self.canceller"]
-        ctx.check(c is not None and not c[0] and c[1], "cancel/marks-and-notifies", where + " | cancelled",
-                  "cancel() returns without setting self.cancelled: the reactor would still run the call")
-        ctx.check(len(calls) == 1 and len(calls[0][2].args) == 1 and src(calls[0][2].args[0]) == "self", "cancel/marks-and-notifies",
-                  where + " | canceller",
-                  f"cancel() calls self.canceller(self) {len(calls)} times: the owner's bookkeeping (cancellation count, Clock.calls) "
-                  "is not updated exactly once")
-    for p in paths:
-        if p.exit[0] == "raise":
-            ctx.check(not any(e[0] == "call" and e[1] == "self.canceller" for e in p.events) and not any(e[0] == "write" for e in p.events),
-                      "cancel/raise-is-clean", ctx.construct(q, p.exit[2]), "cancel() notifies or marks and then raises")
+    with ctx.section("DelayedCall.cancel"):
+        # ---- cancel(): marks cancelled and notifies the owner exactly once
+        f = ctx.func(BASE, "DelayedCall.cancel")
+        q = f"{DC}.cancel"
+        paths = SymExec(cls, ["cancelled"], q).run(f)
+        live = [p for p in paths if p.exit[0] == "return"]
+        ctx.check(bool(live), "cancel/marks-and-notifies", q, "cancel() never returns normally")
+        for p in live:
+            where = ctx.construct(q, SymExec.label(p))
+            c = p.fields["cancelled"]
+            calls = [e for e in p.events if e[0] == "call" and e[1] == "self.canceller"]
+            ctx.check(c is not None and not c[0] and c[1], "cancel/marks-and-notifies", where + " | cancelled",
+                      "cancel() returns without setting self.cancelled: the reactor would still run the call")
+            ctx.check(len(calls) == 1 and len(calls[0][2].args) == 1 and src(calls[0][2].args[0]) == "self", "cancel/marks-and-notifies",
+                      where + " | canceller",
+                      f"cancel() calls self.canceller(self) {len(calls)} times: the owner's bookkeeping (cancellation count, Clock.calls) "
+                      "is not updated exactly once")
+        for p in paths:
+            if p.exit[0] == "raise":
+                ctx.check(not any(e[0] == "call" and e[1] == "self.canceller" for e in p.events) and not any(e[0] == "write" for e in p.events),
+                          "cancel/raise-is-clean", ctx.construct(q, p.exit[2]), "cancel() notifies or marks and then raises")
     return Elem
 
 
